@@ -36,7 +36,7 @@ def main():
                   'baseline_off_cmd': 'ctest --test-dir /repo/_build -j8 --timeout 900', 'source_commits': ['3fd7483'],
                   'add_only': False},
         'engines': [{'name': 'vfx', 'path': 'vfx/', 'serves_properties': [c['property_id'] for c in checks],
-                     'kind_free_text': 'clang AST -> C extraction + CBMC code contracts (goto-instrument --dfcc) with a SAT/SMT portfolio; native replay of counterexamples against the real headers'}],
+                     'kind_free_text': 'clang AST -> C extraction + CBMC code contracts (goto-instrument --dfcc) with a SAT/SMT portfolio; second back end on the same AST: weakest-precondition style symbolic execution into SMT-LIB integer arithmetic (cvc5/z3) with range obligations and contract replacement, used for division, range reduction and the non-linear accuracy clauses; native replay of counterexamples against the real headers; labelled native scans as stand-ins / cross-checks'}],
         'checks': checks,
         'not_applicable': na,
         'notes': 'See DESIGN.md. Exit codes of ./check: 0 held, 1 violation, 2 undecided/machinery broken (never a verdict).',
